@@ -479,6 +479,38 @@ def inline_assoc_consts(body, block, counts):
         counts["R17"] = counts.get("R17", 0) + k
     return body
 
+
+INVENTORY_FILE = os.path.join(os.path.dirname(os.path.abspath(__file__)), "inventory.json")
+
+
+def fn_names_at_depth0(block):
+    """names of the functions declared directly in `block` (an impl body)"""
+    names = []
+    for m in re.finditer(r"\bfn\s+(\w+)\b", block):
+        pre = block[:m.start()]
+        if pre.count("{") - pre.count("}") == 0:
+            names.append(m.group(1))
+    return sorted(set(names))
+
+
+def check_inventory(unit_name, seen):
+    """Contract inventory: every impl block a unit takes a function from is listed, with the names
+    of all its functions, in vx/inventory.json (written from the pinned tree by `python3 -m
+    vx.inventory`).  A function that appears in such a block later -- e.g. an override of a trait
+    method whose default is derived from a function under contract -- has no contract: the unit
+    answers INCONCLUSIVE instead of silently ignoring it."""
+    try:
+        base = json.load(open(INVENTORY_FILE))
+    except (OSError, ValueError):
+        return
+    for key, names in seen.items():
+        known = base.get(f"{unit_name}|{key}")
+        if known is None:
+            continue
+        extra = [n for n in names if n not in known]
+        if extra:
+            raise Inconclusive(f"needs a contract: {key} gained function(s) {extra} that no contract covers")
+
 def bind_tail_expr(body, fnq):
     """`...; TAIL` -> `...; let vx_r = TAIL; vx_r` so that proof hints can follow the computation
     of the result (annotation plumbing only: evaluation order and value are unchanged)."""
@@ -582,6 +614,7 @@ class Emitter:
         self.local_rewrites = []
         self.functions = []
         self.hint_lines = {}
+        self.seen_blocks = {}
 
     def emit(self, s):
         for l in s.split("\n"):
@@ -696,6 +729,7 @@ class Emitter:
         if f.impl is not None:
             block = impl_block(f.rel, f.impl)
             what = f"{f.rel}::{implname}"
+            self.seen_blocks[f"{f.rel}|{f.impl}"] = fn_names_at_depth0(block)
         else:
             block = source(f.rel)
             what = f.rel
@@ -826,6 +860,8 @@ class Emitter:
                 self.emit("")
         self.emit("} // verus!")
         self.emit("fn main() {}")
+        if not getattr(self, "skip_inventory", False):
+            check_inventory(u.name, self.seen_blocks)
         return "\n".join(self.lines) + "\n"
 
 
